@@ -40,6 +40,8 @@ func (v *zzVisit) end() {
 	v.mu.Unlock()
 }
 
+var zzListErr = errors.New("listing failed")
+
 // zzFailList wraps a filespace; listing the directory bad fails.
 type zzInner = filesystem.Filespace
 
@@ -50,7 +52,7 @@ type zzFailList struct {
 
 func (f zzFailList) ReadDir(p string) ([]os.FileInfo, error) {
 	if p == f.bad || p == f.bad+"/" {
-		return nil, errors.New("listing failed")
+		return nil, zzListErr
 	}
 	return f.zzInner.ReadDir(p)
 }
@@ -214,6 +216,17 @@ func zzLoop(pBound, nShapes, maxC, maxPR int) {
 	}
 	if failList {
 		nd.Assert(len(errs) > 0, "C08/listing-error-reported")
+		if !cbFailed && !failFile && !failDir {
+			// nothing else stops the walk: when Wait returns the listing error
+			// itself (not only the cancellation it caused) is in the list
+			found := false
+			for _, e := range errs {
+				if e == zzListErr {
+					found = true
+				}
+			}
+			nd.Assert(found, "C08/listing-error-itself-in-the-list")
+		}
 	}
 	if !cbFailed && !failList {
 		nd.Assert(len(errs) == 0, "C08/no-spurious-error")
